@@ -125,7 +125,18 @@ bool Exec<Cfg>::run_real(Op const& op) {
 			} break;
 			case O_CTOR_COPY: { Arr<D> const& b = pool<D>().at(op.b); OpScope s; new(raw) Arr<D>(b); } break;
 			case O_CTOR_COPY_ALLOC: { Arr<D> const& b = pool<D>().at(op.b); OpScope s; new(raw) Arr<D>(b, al); } break;
-			case O_CTOR_MOVE: { Arr<D>& b = pool<D>().at(op.b); OpScope s; new(raw) Arr<D>(std::move(b)); } break;
+			case O_CTOR_MOVE:
+				if(op.var == 1) {
+					if constexpr(Cfg::static_arrays) {
+						using Dyn = typename Cfg::template array_t_lazy<D>::type;
+						Dyn tmp(make_exts<D>(op.x), ET::make(op.v), al);
+						for(long k = 0; k < static_cast<long>(tmp.num_elements()); ++k) ET::write(tmp.data_elements()[k], op.v + k);
+						OpScope s;
+						new(raw) Arr<D>(std::move(tmp));
+					} else handled = false;
+					break;
+				}
+				{ Arr<D>& b = pool<D>().at(op.b); OpScope s; new(raw) Arr<D>(std::move(b)); } break;
 			case O_CTOR_MOVE_ALLOC:
 				if constexpr(!Cfg::static_arrays) { Arr<D>& b = pool<D>().at(op.b); OpScope s; new(raw) Arr<D>(std::move(b), al); }
 				break;
